@@ -1,4 +1,5 @@
 import TxV.Proofs.ReqRes
+import TxV.Model.ReqResProto  -- (the driver's front end; imported only so that building this module builds it)
 /-!
 # C19 — Serializer and ArgumentsToResultsZipper keep requests and responses matched
 
